@@ -1373,23 +1373,25 @@ func (schema *Schema) visitXOFOperations(settings *schemaValidationSettings, val
 
 				discriminatorValString, okcheck := discriminatorVal.(string)
 				if !okcheck {
-					return &SchemaError{
+					// the value quoted is the discriminator property's: the error points at it
+					return markSchemaErrorKey(&SchemaError{
 						Value:                 discriminatorVal,
 						Schema:                schema,
 						SchemaField:           "discriminator",
 						Reason:                fmt.Sprintf("value of discriminator property %q is not a string", pn),
 						customizeMessageError: settings.customizeMessageError,
-					}, false
+					}, pn), false
 				}
 
 				if discriminatorRef, okcheck = schema.Discriminator.Mapping[discriminatorValString]; len(schema.Discriminator.Mapping) > 0 && !okcheck {
-					return &SchemaError{
+					// the value quoted is the discriminator property's: the error points at it
+					return markSchemaErrorKey(&SchemaError{
 						Value:                 discriminatorVal,
 						Schema:                schema,
 						SchemaField:           "discriminator",
 						Reason:                fmt.Sprintf("discriminator property %q has invalid value", pn),
 						customizeMessageError: settings.customizeMessageError,
-					}, false
+					}, pn), false
 				}
 			}
 		}
